@@ -34,13 +34,19 @@ type shID int
 type shCelsius float64
 type shFlag bool
 type shBase struct{ ID int }
+
+// shUni has exported members whose names begin with upper case letters outside ASCII.
+type shUni struct {
+	Ärmel int
+	Ωmega int `json:"omega"`
+}
 type shRec struct {
 	*shBase
 	Name string
 }
 
-var shapeContainers = []string{"ptrs", "ptrmap", "structs", "nested", "namedkeys", "intkeys", "boolkeys", "ifaces", "funcs", "ifacekeys", "rec", "arrs", "arrmap"}
-var shapeVals = []string{"null", "undefined", "1", "1.5", "-1", "'s'", "true", "({})", "[]", "[1]", "ptrs[1]", "ptrs[0]", "structs[0]", "nested[0]", "function(){}", "funcs[0]", "new Number(3)", "ptrmap.a", "namedkeys", "1e21", "NaN", "[1.5]", "[1, 2]", "[1, 2, 3]", "arrs[0]"}
+var shapeContainers = []string{"ptrs", "ptrmap", "structs", "nested", "namedkeys", "intkeys", "boolkeys", "ifaces", "funcs", "ifacekeys", "rec", "arrs", "arrmap", "parrs", "uni"}
+var shapeVals = []string{"null", "undefined", "1", "1.5", "-1", "'s'", "true", "({})", "[]", "[1]", "ptrs[1]", "ptrs[0]", "structs[0]", "nested[0]", "function(){}", "funcs[0]", "new Number(3)", "ptrmap.a", "namedkeys", "1e21", "NaN", "[1.5]", "[1, 2]", "[1, 2, 3]", "arrs[0]", "String.fromCharCode(97, 98)", "({n: 0, valueOf: function(){ return ++this.n }})"}
 var shapeKeys = []string{"0", "1", "2", "5", "a", "b", "zz", "010", "0x10", "+8", "8", "16", "-1", "1_0", "true", "t", "length", "ID", "Name", "N", "A"}
 
 func genShape(r *gen.Rand) ShapeCase {
@@ -57,6 +63,15 @@ func genShape(r *gen.Rand) ShapeCase {
 		if r.Chance(1, 2) {
 			s.Op = []string{"prop", "index", "delete", "name"}[r.Intn(4)]
 		}
+	}
+	switch r.Intn(40) {
+	case 0:
+		s.Container, s.Op = "fv", "variadic"
+		s.Val = []string{"function(a, b){}", "({length: 3})", "new String('ab')", "[1, 2, 3]", "'x', function(ev, t, x){}", "1, 2", "", "[[1, 2]]", "goSliceLike"}[r.Intn(8)]
+	case 1:
+		s.Container, s.Op = []string{"nested", "intkeys", "namedkeys"}[r.Intn(3)], "once"
+	case 2:
+		s.Container, s.Op = "uni", "uni"
 	}
 	if s.Op == "call" {
 		s.Container = []string{"fd", "fc", "fb", "fs", "flen", "fkey", "frec"}[r.Intn(7)]
@@ -81,7 +96,10 @@ func (k *checker) checkShape(s ShapeCase) bool {
 	rec := &shRec{Name: "r"} // the embedded pointer is nil
 	arrs := [][2]float64{{1, 2}, {3, 4}}
 	arrmap := map[string][2]int64{"a": {1, 2}}
-	for name, v := range map[string]interface{}{"ptrs": ptrs, "ptrmap": ptrmap, "structs": structs, "nested": nested, "namedkeys": namedkeys, "intkeys": intkeys, "boolkeys": boolkeys, "ifaces": ifaces, "funcs": funcs, "ifacekeys": ifacekeys, "rec": rec, "arrs": arrs, "arrmap": arrmap,
+	parrs := []*[2]int64{{1, 2}}
+	uni := &shUni{Ärmel: 3, Ωmega: 4}
+	variadic := func(args ...interface{}) int { return len(args) }
+	for name, v := range map[string]interface{}{"ptrs": ptrs, "ptrmap": ptrmap, "structs": structs, "nested": nested, "namedkeys": namedkeys, "intkeys": intkeys, "boolkeys": boolkeys, "ifaces": ifaces, "funcs": funcs, "ifacekeys": ifacekeys, "rec": rec, "arrs": arrs, "arrmap": arrmap, "parrs": parrs, "uni": uni, "fv": variadic,
 		"fd": func(d time.Duration) string { return d.String() }, "fc": func(c shCelsius) float64 { return float64(c) }, "fb": func(b shFlag) bool { return bool(b) },
 		"fs": func(s string) string { return s }, "flen": func(xs []int) int { return len(xs) }, "fkey": func(m map[shKey]int) int { return len(m) }, "frec": func(r shRec) string { return r.Name }} {
 		if err := vm.Set(name, v); err != nil {
@@ -111,6 +129,16 @@ func (k *checker) checkShape(s ShapeCase) bool {
 	case "name":
 		// a property name denotes one key: the name listed by Object.keys
 		src = fmt.Sprintf("var before = JSON.stringify(%s); var had = Object.getOwnPropertyNames(%s).indexOf(%q) >= 0; var got = %s[%q]; (had || got === undefined || typeof got === 'function') ? 'ok' : 'alias:' + %q + '=' + got", c, c, s.Key, c, s.Key, s.Key)
+	case "variadic":
+		// a variadic Go function receives one value per argument; only a real array may stand for the whole tail
+		want := map[string]string{"function(a, b){}": "1", "({length: 3})": "1", "new String('ab')": "1", "[1, 2, 3]": "3", "'x', function(ev, t, x){}": "2", "1, 2": "2", "": "0", "[[1, 2]]": "1"}[s.Val]
+		src = fmt.Sprintf("var got = fv(%s); got === %s ? 'ok' : 'fv received ' + got + ' arguments, expected %s'", s.Val, want, want)
+	case "once":
+		// an object stored into an integer element is converted by one ToNumber: the number checked is the number stored
+		target := map[string]string{"nested": "nested[0][0]", "intkeys": "namedkeys.a", "namedkeys": "namedkeys.b"}[c]
+		src = fmt.Sprintf("var o = {n: 0, valueOf: function(){ return ++this.n }}; %s = o; (o.n === 1 && %s === 1) ? 'ok' : 'valueOf ran ' + o.n + ' times, stored ' + %s", target, target, target)
+	case "uni":
+		src = "(uni.\u00c4rmel === 3 && uni.\u03a9mega === 4 && Object.keys(uni).join() === '\u00c4rmel,\u03a9mega') ? (function(){ uni.\u00c4rmel = 30; var r = (uni.\u00c4rmel === 30 && Object.keys(uni).length === 2) ? 'ok' : 'write made a shadow property: ' + Object.keys(uni).join(); uni.\u00c4rmel = 3; return r })() : 'members hidden: ' + Object.keys(uni).join() + ' ' + uni.\u00c4rmel"
 	case "call":
 		if c == "fs" {
 			// a Number given for a Go string is its ES5 ToString
@@ -121,7 +149,7 @@ func (k *checker) checkShape(s ShapeCase) bool {
 	}
 	k.stage = "shape:" + s.Op
 	out := ox.Run(vm, "try { "+strings.Replace(src, "; 'ok'", "", 1)+"; 'ok' } catch (e) { (e instanceof TypeError || e instanceof RangeError) ? 'loud:' + e.name : 'other:' + (e && e.name) + ':' + e }")
-	if s.Op == "in" || s.Op == "name" || s.Op == "prop" || (s.Op == "call" && c == "fs") {
+	if s.Op == "in" || s.Op == "name" || s.Op == "prop" || s.Op == "variadic" || s.Op == "once" || s.Op == "uni" || (s.Op == "call" && c == "fs") {
 		out = ox.Run(vm, "try { "+src+" } catch (e) { (e instanceof TypeError || e instanceof RangeError) ? 'loud:' + e.name : 'other:' + (e && e.name) + ':' + e }")
 	}
 	k.c.Eval(1)
@@ -137,6 +165,15 @@ func (k *checker) checkShape(s ShapeCase) bool {
 		if res != "ok" && !strings.HasPrefix(res, "loud:") {
 			k.fail("mismatch", site, "ok, or loud:TypeError / loud:RangeError", res, src)
 		}
+	}
+	// what Go sees in interface elements is a Go value of the natural kind (a string is a string, not its UTF-16 payload)
+	for i, e := range ifaces {
+		if _, bad := e.([]uint16); bad {
+			k.fail("mismatch", "shape:ifaces:go-side", "a Go string", fmt.Sprintf("element %d is a []uint16", i), src)
+		}
+	}
+	if uni.Ärmel != 3 && uni.Ärmel != 30 {
+		k.fail("mismatch", "shape:uni:go-side", "3 or 30", fmt.Sprint(uni.Ärmel), src)
 	}
 	// the Go side is intact: typed elements keep their types (a wrong store would have panicked in reflect)
 	_ = ptrs[0]
